@@ -121,7 +121,7 @@ func c05Run(c *run.Ctx, ci int, k c05Case) {
 	w.AddClient(world.ClientSpec{ID: "c5-full", Secret: "s5", RedirectURIs: []string{"https://c5.example/cb"}, GrantTypes: grants, ResponseTypes: world.AllResponseTypes, Scopes: registered, Audience: allAud})
 	w.AddClient(world.ClientSpec{ID: "c5-norefresh", Secret: "s5n", RedirectURIs: []string{"https://c5n.example/cb"}, GrantTypes: grants[:4], ResponseTypes: world.AllResponseTypes, Scopes: registered, Audience: allAud})
 	w.AddClient(world.ClientSpec{ID: "c5-other", Secret: "s5o", RedirectURIs: []string{"https://c5o.example/cb"}, GrantTypes: grants, ResponseTypes: world.AllResponseTypes, Scopes: registered, Audience: allAud})
-	s := sim.New(w, c, "refresh-cross-client", "refresh-issued-against-rule", "payload", "refresh-after-registration-narrowed", "rightful-refresh-refused", "refresh-without-client-grant", "dead-unexpected")
+	s := sim.New(w, c, "refresh-cross-client", "refresh-issued-against-rule", "payload", "refresh-after-registration-narrowed", "rightful-refresh-refused", "refresh-without-client-grant", "dead-unexpected", "requested-scope-changed", "requested-audience-changed")
 	caseID := fmt.Sprint(ci)
 	s.CaseID = caseID
 	granted := k.Granted
@@ -214,6 +214,16 @@ func c05Run(c *run.Ctx, ci int, k c05Case) {
 	case "drop-refresh-grant":
 		dc.GrantTypes = removeStr(dc.GrantTypes, "refresh_token")
 		narrowed = true
+	}
+	if ci%2 == 1 && k.Edit != "none" {
+		// the registration is changed by REPLACING the client record in the store (how an admin API does it), so the client
+		// object captured inside stored requests is a stale snapshot
+		sp := *w.Specs[k.Client]
+		sp.Scopes, sp.Audience, sp.GrantTypes = append([]string(nil), dc.Scopes...), append([]string(nil), dc.Audience...), append([]string(nil), dc.GrantTypes...)
+		// restore the old object to its issuance-time state: it now only lives inside stored requests
+		orig := w.Specs[k.Client]
+		dc.Scopes, dc.Audience, dc.GrantTypes = append([]string(nil), orig.Scopes...), append([]string(nil), orig.Audience...), append([]string(nil), orig.GrantTypes...)
+		w.Mem.Clients[k.Client] = sp.Build()
 	}
 	// refresh parameters
 	form := url.Values{}
